@@ -580,9 +580,11 @@ func init() {
 		notDecided:  []string{"the exact TSPLIB header text, DIMENSION value and row layout (pinned by the golden-file test)", "that a partial write with a nil error from a non-conforming io.Writer is detected"},
 		assumptions: []string{"text/tabwriter buffers cells until Flush and returns the underlying write error from Flush", "io.WriteString / fmt.Fprintf return a non-nil error whenever the underlying Write does"},
 		run: func(c *Ctx, tier string) []*RuleResult {
-			e := &RuleResult{Rule: "ERRCHK", Doc: "every direct write to w and every Flush of a wrapper of w has its error tested and propagated on the failure edge", MinInst: 5}
+			e := &RuleResult{Rule: "ERRCHK", Doc: "every direct write to w and every Flush of a wrapper of w has its error tested and propagated on the failure edge", MinInst: 1}
 			ruleErrChk(c, e, "tsp.LIB", "w")
-			return []*RuleResult{e, ruleDomain(c, "tsp.LIB", "weights", "n")}
+			gl := ruleGlobalIn(c, "tsp")
+			gl.Doc = "the writer keeps no state between calls: no function of package tsp writes or hands out a package-level variable (a pooled or cached output buffer makes one call's output depend on an earlier, possibly failed, call)"
+			return []*RuleResult{e, ruleDomain(c, "tsp.LIB", "weights", "n"), gl}
 		},
 		controls: func(ctl *Ctx) []*RuleResult {
 			var out []*RuleResult
